@@ -43,6 +43,7 @@ type vDB struct {
 	writeSizes     []int
 	opsSinceOpen   int
 	onCall         func(kind string) // optional hook (C06 injection points)
+	onDone         func(kind string) // optional hook after a read has been answered (C06: preemption of a reader)
 	inHook         bool
 	directWrites   int
 	closedDB       bool
@@ -81,6 +82,14 @@ func (d *vDB) fault(kind string) bool {
 		return true
 	}
 	return false
+}
+
+func (d *vDB) done(kind string) {
+	if d.onDone != nil && !d.inHook {
+		d.inHook = true
+		d.onDone(kind)
+		d.inHook = false
+	}
 }
 
 // find returns the position of key and whether it is present.
@@ -125,10 +134,12 @@ func (d *vDB) Get(key []byte) ([]byte, error) {
 	}
 	d.reads++
 	i, ok := d.find(key)
-	if !ok {
-		return nil, nil
+	var out []byte
+	if ok {
+		out = vCopy(d.vals[i])
 	}
-	return vCopy(d.vals[i]), nil
+	d.done("get")
+	return out, nil
 }
 
 func (d *vDB) Has(key []byte) (bool, error) {
@@ -140,6 +151,7 @@ func (d *vDB) Has(key []byte) (bool, error) {
 	}
 	d.reads++
 	_, ok := d.find(key)
+	d.done("has")
 	return ok, nil
 }
 
@@ -267,6 +279,7 @@ func (d *vDB) newIter(start, end []byte, reverse bool) (corestore.Iterator, erro
 		}
 	}
 	d.openIters++
+	d.done("iterator")
 	return it, nil
 }
 
